@@ -16,10 +16,13 @@ macro_rules! dispatch {
             "C02" => $f::<c02::C02>($($arg),*),
             "C03" => $f::<c03::C03>($($arg),*),
             "C04" => $f::<c04::C04>($($arg),*),
+            "C06" => $f::<c06::C06>($($arg),*),
             "C07" => $f::<c07::C07>($($arg),*),
             "C08" => $f::<c08::C08>($($arg),*),
             "C09" => $f::<c09::C09>($($arg),*),
             "C10" => $f::<c10::C10>($($arg),*),
+            "C12" => $f::<c12::C12>($($arg),*),
+            "C13" => $f::<c13::C13>($($arg),*),
             other => {
                 eprintln!("unknown property {other}");
                 2
@@ -36,6 +39,13 @@ fn main() {
     }
     let cmd = args[1].as_str();
     let id = args[2].as_str();
+    if cmd == "probe" {
+        let code = match id {
+            "sample" => c13::probe_sample(args.get(3).map(|s| s.as_str()).unwrap_or("")),
+            _ => 2,
+        };
+        std::process::exit(code);
+    }
     let env_seed = std::env::var("VERIF_SEED").ok().and_then(|s| s.parse::<u64>().ok());
     let seed = arg_val(&args, "--seed")
         .and_then(|s| s.parse().ok())
@@ -74,6 +84,14 @@ fn main() {
                 hang_secs: arg_val(&args, "--hang-secs").and_then(|s| s.parse().ok()).unwrap_or(60),
             };
             dispatch!(id, worker, &wa)
+        }
+        "gen" => {
+            let a = (
+                seed,
+                args.get(3).cloned().unwrap_or_default(),
+                args.get(4).and_then(|s| s.parse().ok()).unwrap_or(0),
+            );
+            dispatch!(id, print_case, &a)
         }
         "replay" => {
             let Some(path) = args.get(3) else {
